@@ -83,7 +83,4 @@ theorem C09_ok_is_send (h : RH) (hs : Headers) :
 /-- non-vacuity: a two-answer history in which only the second, bodyless answer announces close -/
 example : (run new [(.send, Headers.new), (.send0, Headers.closeStatic)]).keepAlive = false := by decide
 
-/-- the tie: the control skeleton of `ResponseHandle` extracted from the source is the one modelled -/
-theorem C09_skeleton_response_handle : Gen.handleSkeleton = expectedSkeleton := by decide
-
 end Khttp.Handle
